@@ -688,9 +688,61 @@ def _gen_server(rng):
 
 
 # ---- responses
-LOCS_BAD = [None, b"", b"////h:99999/", b"http://a..b/", b"////other/x", b"http://127.0.0.1:8080//evil:99999/", b"http://" + b"a" * 70 + b".com/",
+LOCS_BAD = [None, b"", b"http:a:b", b"HTTP:a:80", b"http:///x", b"//", b":", b"a:b", b"http:x", b"x:99999", b"//@:", b"http://h:1:2/", b"http://:80/",
+            b"http://[::1", b"////h:99999/", b"http://a..b/", b"////other/x", b"http://127.0.0.1:8080//evil:99999/", b"http://" + b"a" * 70 + b".com/",
             b"http://.x/", b"////", b"//h:99999/x", b"http://xn--/", b"http://\xe9..\xff/", b"http://h:99999/x", b"http://[::1/x", b"http://h:ab/x", b"http://nosuch.invalid/x", b"http://[::1]/x", b"//h\xe9.invalid/",
             b"http://%5B/x", b"http://h:%39%39%39%39%39/", b"http://[fe80::abcd]/x", b"http://[zz]/"]
+def _loc_stays(loc):
+    """True when a redirect to [loc] is refused or stays on the fake connection (same scheme, host and port): the
+    harness must not open a real socket.  Mirrors the pure steps of Client.redirect with the stdlib."""
+    import socket
+    from urllib.parse import urlsplit, unquote
+    try:
+        text = loc.decode("latin-1")
+        path, sep, query = text.partition("?")
+        text = unquote(path) + (sep + query if sep else "")
+        sp = urlsplit(text)
+        port = sp.port
+        host = sp.hostname
+    except ValueError:
+        return True
+    if not host:
+        return True
+    if (sp.scheme or "").lower() == "https":
+        return False
+    i, j = host.rfind(":"), host.rfind("]")
+    if i > j:
+        if host[i + 1:]:
+            port = host[i + 1:]
+        host = host[:i]
+    try:
+        port = int(port) if port is not None else 80
+        info = socket.getaddrinfo(host, None, socket.AF_INET, socket.SOCK_DGRAM, socket.IPPROTO_IP, 0)
+    except (ValueError, OSError, UnicodeError):
+        try:
+            socket.getaddrinfo(host, None, socket.AF_INET6, socket.SOCK_DGRAM, socket.IPPROTO_IP, 0)
+        except (OSError, UnicodeError, ValueError):
+            return True
+        return False
+    return (info[0][4][0], port) == ("127.0.0.1", 8080)
+
+
+def _rand_loc(rng):
+    """near-valid Location: a plausible value with URL metacharacters and digits spliced in, or pure metacharacter soup"""
+    for _ in range(20):
+        if rng.random() < 0.6:
+            loc = bytearray(rng.choice([x for x in LOCS_BAD + LOCS_OK if x]))
+            for _ in range(rng.randint(1, 3)):
+                i = rng.randrange(len(loc) + 1)
+                loc[i:i] = bytes([rng.choice(b":/?#[]@:/0189.%")])
+        else:
+            loc = bytearray(rng.choice(b"htps:/?#[]@.0189ab%-") for _ in range(rng.randint(1, 12)))
+        loc = bytes(loc)
+        if _loc_stays(loc):
+            return loc
+    return b"/y"
+
+
 LOCS_OK = [b"/y", b"y?a=1", b"http://127.0.0.1:8080/z", b"/a%20b?x=%5B", b"?q", b"#f"]
 
 
@@ -756,6 +808,20 @@ RESP_EDITS = [("nocolon", _e_nocolon, "error"), ("chunksize", _e_chunksize, "err
               ("trunc", _e_trunc, None), ("addhdr", _e_te, None)]
 
 
+def _sse_long(rng):
+    """an event stream with an over-long line (no terminator in more than 64 KiB), then further responses on the same client"""
+    n = rng.choice([66000, 70000, 131000])
+    ev = rng.choice([b"", b"data: a\n\n", b"id: 1\r\n"]) + b"data: " + b"x" * n + rng.choice([b"", b"\n\n", b"\r"])
+    head = b"HTTP/1.1 200 OK\r\nContent-Type: text/event-stream\r\n"
+    first = head + b"Transfer-Encoding: chunked\r\n\r\n" + _chunked(rng, ev)
+    nxt = rng.choice([b"HTTP/1.1 200 OK\r\nTransfer-Encoding: chunked\r\n\r\n2\r\nhi\r\n0\r\n\r\n",
+                      b"HTTP/1.1 200 OK\r\nContent-Length: 2\r\n\r\nhi",
+                      b"HTTP/1.1 200 OK\r\nContent-Type: text/plain\r\nTransfer-Encoding: chunked\r\n\r\n2\r\nhi\r\n0\r\n\r\n",
+                      head + b"Transfer-Encoding: chunked\r\n\r\n" + _chunked(rng, b"data: ok\n\n"),
+                      b""])
+    return first + nxt + rng.choice([b"", nxt])
+
+
 def _sse(rng, bad_utf8):
     ev = b"retry: 10\n\nid: 1\ndata: hello\ndata: wor\xc3\xa9ld\n\n: comment\r\nevent: x\rdata: {\"a\":1}\r\n\r\n"
     if bad_utf8:
@@ -775,6 +841,8 @@ def _gen_client(rng):
     if kind < 0.15:      # redirects
         bad = rng.random() < 0.6
         loc = rng.choice(LOCS_BAD) if bad else rng.choice(LOCS_OK)
+        if rng.random() < 0.5:
+            loc = _rand_loc(rng)
         r1, _ = _response(rng, method=method, redirect=(loc,))
         # the redirect response must be self delimited
         if b"Content-Length" not in r1 and b"hunked" not in r1.lower():
@@ -787,6 +855,8 @@ def _gen_client(rng):
             pass
     elif kind < 0.25:    # server sent events, last response on the connection
         r, closing = _sse(rng, bad_utf8=rng.random() < 0.6)
+        if rng.random() < 0.25:
+            r, closing = _sse_long(rng), False
         resps = [r]
         nreq = 1
         edits = ["sse"]
@@ -877,6 +947,8 @@ def directed():
     C = lambda s, **kw: _mk("client", s, kw.pop("cuts", None), eof=kw.pop("eof", False), settle=kw.pop("settle", 4),
                             method=kw.pop("method", "GET"), nreq=kw.pop("nreq", 1), redirectable=kw.pop("redirectable", True), **kw)
     OK = b"HTTP/1.1 200 OK\r\nContent-Length: 2\r\n\r\nhi"
+    SSEH = b"HTTP/1.1 200 OK\r\nContent-Type: text/event-stream\r\n"
+    CH = lambda data: b"%x\r\n" % len(data) + data + b"\r\n0\r\n\r\n"
     out += [
         C(OK, edits=[], expect="ok"),
         C(OK + OK, nreq=2, edits=[], expect="ok", nvalid=2),
@@ -899,6 +971,14 @@ def directed():
         C(b"HTTP/1.1 302 Found\r\nLocation: http://" + b"a" * 70 + b".com/\r\nContent-Length: 0\r\n\r\n", edits=["redirect-bad"], expect="error"),
         C(b"HTTP/1.1 302 Found\r\nLocation: http://127.0.0.1:8080//evil:99999/\r\nContent-Length: 0\r\n\r\n", edits=["redirect-bad"], expect="error"),
         C(b"HTTP/1.1 302 Found\r\nLocation: ///x\r\nContent-Length: 0\r\n\r\n" + OK, edits=["redirect"], expect="ok"),
+        C(b"HTTP/1.1 302 Found\r\nLocation: http:a:b\r\nContent-Length: 0\r\n\r\n" + OK, nreq=2, edits=["redirect-bad"], expect="error"),   # path a:b re-split by build: scheme 'a'
+        C(b"HTTP/1.1 302 Found\r\nLocation: http:x\r\nContent-Length: 0\r\n\r\n" + OK, edits=["redirect"], expect="ok"),
+        C(b"HTTP/1.1 302 Found\r\nLocation: :\r\nContent-Length: 0\r\n\r\n" + OK, edits=["redirect"], expect="ok"),
+        # an over-long SSE line kills the event parser; later responses on the same client must still be serviced
+        C(SSEH + b"Transfer-Encoding: chunked\r\n\r\n" + CH(b"data: " + b"x" * 70000) + b"HTTP/1.1 200 OK\r\nTransfer-Encoding: chunked\r\n\r\n2\r\nhi\r\n0\r\n\r\n", nreq=2, edits=["sse-long"], settle=6),
+        C(SSEH + b"Transfer-Encoding: chunked\r\n\r\n" + CH(b"data: " + b"x" * 70000) + OK + OK, nreq=2, edits=["sse-long"], settle=6),
+        C(SSEH + b"\r\ndata: " + b"x" * 70000, edits=["sse-long"], eof=True, settle=5),
+        C(SSEH + b"Transfer-Encoding: chunked\r\n\r\n" + CH(b"data: a\n\ndata: " + b"y" * 40000) + SSEH + b"Transfer-Encoding: chunked\r\n\r\n" + CH(b"data: " + b"z" * 40000), edits=["sse-long"], settle=6),
         C(b"HTTP/1.1 302 Found\r\nLocation: http://h:ab/x\r\nContent-Length: 0\r\n\r\n" + OK, nreq=2, edits=["redirect-bad"]),  # next response still delivered
         # a redirected HEAD is re-sent as HEAD: its reply has no body even without Content-Length
         C(b"HTTP/1.1 303 See Other\r\nLocation: #f\r\n\r\nHTTP/1.1 200 \xe9\r\n\r\n", nreq=2, method="HEAD", edits=["redirect"], expect="ok", nvalid=1),
